@@ -52,7 +52,7 @@ def wh_check(pid, tier, seed, t0):
         if d is not None:
             diverged.append((idx, d))
         for (si, p, msg) in orc["fails"]:
-            if p == pid:
+            if p == pid or p == "*":
                 viol.append((idx, si, msg))
                 break
         for (si, cls) in orc["known"]:
@@ -136,7 +136,7 @@ def shrink_wh(ops, pid, msg, budget=120):
         impl = wh.parse_trace(sh[0]["impl"])
         if not impl:
             return False
-        return any(p == pid for (_, p, _) in wh.oracle_case(impl[0])["fails"])
+        return any(p in (pid, "*") for (_, p, _) in wh.safe_oracle_case(impl[0])["fails"])
 
     cur = list(ops)
     try:
@@ -179,8 +179,8 @@ def replay_wh(pid, path):
         raise Infra(err[-2000:])
     sh = wh.run_cases([ops], os.path.join(common.BUILD, "run", "replay-%s" % pid), shards=1, tag="r")
     impl = wh.parse_trace(sh[0]["impl"])
-    o = wh.oracle_case(impl[0])
-    bad = [(i, p, m) for (i, p, m) in o["fails"] if p == pid]
+    o = wh.safe_oracle_case(impl[0])
+    bad = [(i, p, m) for (i, p, m) in o["fails"] if p in (pid, "*")]
     for l in ops:
         print("  " + l)
     if bad:
